@@ -176,7 +176,7 @@ def candle_dict_to_np_array""", """        candles[-1, 5],
 
 def candle_dict_to_np_array""")
 m('c07_table_45', ['C07', 'C17'], 'jesse/utils.py', 'timeframes.MINUTE_45: 45,', 'timeframes.MINUTE_45: 40,')
-m('c07_forming_count', ['C07', 'C01'], 'jesse/store/state_candles.py',
+m('c07_forming_count', ['C07'], 'jesse/store/state_candles.py',
   'dif = current_1m_count % required_1m_to_complete_count', 'dif = (current_1m_count + 1) % required_1m_to_complete_count')
 m('c07_warmup_inject_mod', ['C07'], 'jesse/services/candle.py',
   """            if (i + 1) % num == 0:
@@ -197,7 +197,7 @@ m('c07_warmup_inject_mod', ['C07'], 'jesse/services/candle.py',
 m('c07_partial_needed', ['C07'], 'jesse/modes/backtest_mode.py',
   'number_of_needed_candles = int(storable_temp_candle[0] % (tf_minutes * 60_000) // 60000) + 1',
   'number_of_needed_candles = int(storable_temp_candle[0] % (tf_minutes * 60_000) // 60000) + 2')
-m('c07_step_window_open', ['C07', 'C01'], 'jesse/modes/backtest_mode.py',
+m('c07_step_window_open', ['C07'], 'jesse/modes/backtest_mode.py',
   """                    generated_candle = generate_candle_from_one_minutes(
                         timeframe,
                         candles[j]['candles'][(i - (count - 1)):(i + 1)]
@@ -222,7 +222,7 @@ m('c07_current_candle_stale', ['C07'], 'jesse/store/state_candles.py',
 # ---- C12 -----------------------------------------------------------------------------------------
 m('c12_step_max_instead_of_gcd', ['C12', 'C01'], 'jesse/modes/backtest_mode.py',
   'return np.gcd.reduce(consider_time_frames)', 'return max(consider_time_frames)')
-m('c12_routes_before_candles', ['C12', 'C01'], 'jesse/modes/backtest_mode.py',
+m('c12_routes_before_candles', ['C12'], 'jesse/modes/backtest_mode.py',
   """        _simulate_new_candles(candles, i, current_step)
 
         last_update_time = _update_progress_bar(progressbar, run_silently, i, candles_step,
@@ -243,18 +243,33 @@ m('c12_fast_no_market_flush', ['C12', 'C02'], 'jesse/modes/backtest_mode.py',
 """, """        _execute_routes(i, current_step)
 """)
 m('c12_fast_no_partial_update', ['C12', 'C07'], 'jesse/modes/backtest_mode.py',
-  """                            _update_all_routes_a_partial_candle(
-                                exchange,
-                                symbol,
-                                storable_temp_candle,
-                            )
-                            p = selectors.get_position(exchange, symbol)""", """                            p = selectors.get_position(exchange, symbol)""")
+  """                    _update_all_routes_a_partial_candle(
+                        exchange,
+                        symbol,
+                        storable_temp_candle,
+                    )
+                    p = selectors.get_position(exchange, symbol)
+                    p.current_price = storable_temp_candle[2]
+
+                    is_executed_order = True""", """                    p = selectors.get_position(exchange, symbol)
+                    p.current_price = storable_temp_candle[2]
+
+                    is_executed_order = True""")
 m('c12_fast_prev_close_not_extended', ['C12', 'C02'], 'jesse/modes/backtest_mode.py',
   """            if i > 0:
-                current_temp_candle[3] = max(current_temp_candle[3], short_timeframes_candles[i-1, 2])
-                current_temp_candle[4] = min(current_temp_candle[4], short_timeframes_candles[i-1, 2])""",
+                # like the normal simulator: the minute starts at the previous close
+                current_temp_candle = _get_fixed_jumped_candle(short_timeframes_candles[i - 1], current_temp_candle)""",
   """            if i > 0:
                 pass""")
+m('c12_fast_candidates_unsorted', ['C02'], 'jesse/modes/backtest_mode.py',
+  """                if len(candidates) > 1:
+                    candidates = _sort_execution_orders(candidates, current_temp_candle[None, :])
+
+                if len(candidates) == 0:
+                    is_executed_order = False""", """                if len(candidates) == 0:
+                    is_executed_order = False""")
+# (removing the per-minute to_execute flush alone is equivalent since the fast simulator re-reads the active orders after every
+#  fill: a MARKET order queued by a fill callback rests at the fill price and is matched as the next candidate of that minute)
 
 # ---- C01 -----------------------------------------------------------------------------------------
 m('c01_tf_close_peeks_next_open', ['C01', 'C07'], 'jesse/modes/backtest_mode.py',
@@ -381,7 +396,7 @@ m('c03_reduce_pnl_current_price', ['C03', 'C06'], 'jesse/models/Position.py',
   "        estimated_profit = jh.estimate_PNL(qty, self.entry_price, price, self.type)\n",
   "        estimated_profit = jh.estimate_PNL(qty, self.entry_price, self.current_price if self.current_price else price, self.type)\n",
   note='equivalent in the simulators (current price == fill price at the fill); direct-drive sets it too -> expected equivalent')
-m('c03_flip_keeps_entry', ['C03', 'C06'], 'jesse/models/Position.py',
+m('c03_flip_keeps_entry', ['C03'], 'jesse/models/Position.py',
   """                        diff_qty = sum_floats(self.qty, qty)
                         self._mutating_close(price)
                         self._mutating_open(diff_qty, price)""",
@@ -587,7 +602,7 @@ m('c10_short_entry_swapped', ['C10'], 'jesse/strategies/Strategy.py',
             # LIMIT order
             elif o[1] < price_to_compare:
                 self.broker.sell_at(o[0], o[1])""")
-m('c10_exit_not_reduce_only', ['C10', 'C03'], 'jesse/services/broker.py',
+m('c10_exit_not_reduce_only', ['C10'], 'jesse/services/broker.py',
   """            return self.api.stop_order(
                 self.exchange,
                 self.symbol,
@@ -721,8 +736,8 @@ def _simulation_minutes_length""", """        _execute_market_orders()
 def _simulation_minutes_length""")
 m('c16_futures_equity_without_upnl', ['C16'], 'jesse/modes/utils.py',
   "            if pos.is_open:\n                total_balances += pos.pnl", "            if pos.is_open and pos.pnl < 0:\n                total_balances += pos.pnl")
-m('c16_spot_equity_without_reserved', ['C16'], 'jesse/strategies/Strategy.py',
-  "            total_position_values = entry_orders_value + positions_value", "            total_position_values = positions_value")
+m('c16_spot_equity_without_reserved', ['C16'], 'jesse/modes/utils.py',
+  "                if o.is_active and o.side == 'buy':\n                    total_balances += o.value", "                if o.is_active and o.side == 'buy':\n                    total_balances += 0")
 m('c16_maxdd_includes_start', ['C16'], 'jesse/services/metrics.py',
   "    prices = (returns + 1).cumprod()\n    result = (prices / prices.expanding(min_periods=0).max()).min() - 1",
   "    prices = (returns + 1).cumprod()\n    result = (prices / prices.expanding(min_periods=0).max()).iloc[:-1].min() - 1",
@@ -773,7 +788,7 @@ m('c17_fee_factor_1x', ['C17'], 'jesse/utils.py',
 m('c17_decimal_of_float', ['C17', 'C04'], 'jesse/utils.py',
   "    return float(Decimal(str(float1)) + Decimal(str(float2)))", "    return float(Decimal(float1) + Decimal(float2))",
   note='binary instead of decimal addition: result equals float1 + float2 rounded once - differs only rarely')
-m('c17_sum_plain_float', ['C17', 'C04'], 'jesse/utils.py',
+m('c17_sum_plain_float', ['C17'], 'jesse/utils.py',
   "    return float(Decimal(str(float1)) - Decimal(str(float2)))", "    return float1 - float2")
 m('c17_round_decimals_np_round', ['C17'], 'jesse/helpers.py',
   "        factor = 10 ** decimals\n        return np.floor(number * factor) / factor", "        factor = 10 ** decimals\n        return np.round(number * factor) / factor")
@@ -825,11 +840,11 @@ m('c14_sma_res_minus_2', ['C14'], 'jesse/indicators/sma.py',
   "    return res if sequential else res[-1]", "    return res if sequential else res[-2]")
 m('c14_slice_239', ['C14'], 'jesse/helpers.py',
   "        candles = candles[-warmup_candles_num:]", "        candles = candles[-(warmup_candles_num - 1):]")
-m('c14_same_length_dropped', ['C14', 'C13'], 'jesse/indicators/er.py',
+m('c14_same_length_dropped', ['C14'], 'jesse/indicators/er.py',
   "    return same_length(candles, res) if sequential else res[-1]", "    return res if sequential else res[-1]")
-m('c14_ema_no_slice', ['C14'], 'jesse/indicators/ema.py',
-  "        candles = slice_candles(candles, sequential)\n        source = get_candle_source(candles, source_type=source_type)\n\n    result = _ema(source, period)",
-  "        source = get_candle_source(candles, source_type=source_type)\n\n    result = _ema(source, period)")
+m('c14_sma_valid_only', ['C14'], 'jesse/indicators/sma.py',
+  "    return res if sequential else res[-1]", "    return res[period - 1:] if sequential and len(source) > 150 else (res if sequential else res[-1])",
+  note='long inputs come back without the leading NaN padding (replaces c14_ema_no_slice, which was equivalent: slice_candles is a no-op for sequential calls)')
 m('c14_macd_hist_unpadded', ['C14'], 'jesse/indicators/stochastic.py',
   "    if sequential:\n        return Stochastic(k, d)", "    if sequential:\n        return Stochastic(k, d[1:])")
 
